@@ -5,7 +5,7 @@
    skeleton of container loading over an arbitrary script of external answers).
    Flags [true] = the repaired code (fixes/C17-*.patch), [false] = the pinned tree. *)
 From Coq Require Import NArith List Bool.
-From NP Require Import Model.PyBase Model.Varint Model.Wire Model.IWA Model.Loader
+From NP Require Import Gen.GenIWA Model.PyBase Model.Varint Model.Wire Model.IWA Model.Loader
   Proofs.IWAP Proofs.IWATotalP Proofs.LoaderP.
 Import ListNotations.
 Open Scope N_scope.
@@ -134,6 +134,11 @@ Theorem package_fuel_irrelevant : forall fs f f' k, (length k < f)%nat -> (lengt
   read_package fs f k = read_package fs f' k.
 Proof. exact read_package_fuel. Qed.
 Print Assumptions package_fuel_irrelevant.
+
+(* translator tie: the except clauses of the loader functions in /repo are the ones of the pinned or of the repaired model *)
+Theorem gen_handlers : handlers_match GenIWA.handlers = true.
+Proof. vm_compute. reflexivity. Qed.
+Print Assumptions gen_handlers.
 
 (* ---------- non-vacuity ---------- *)
 (* an intact container with one archive of two objects loads; the same scripts under the repaired
